@@ -80,11 +80,13 @@ theorem C14_quorum (E : Env) (s : St) (e : Nat) (c : CertRec) (h : newCert E s e
   obtain ⟨o, m, h1, h2, h3, h4, h5, h6⟩ := newCert_spec h
   exact ⟨o, m, h1, h2, h3, h4, h5, by rw [h6], by rw [h6], by rw [h6]⟩
 
+/- VACUITY AUDIT: no longer an obligation of the check. definitional. Replaced by: -. -/
 theorem C14_inserts_newCert (E : Env) (s : St) (e : Nat) :
     (createCertificate E s e).certs = match newCert E s e with | some c => s.certs ++ [c] | none => s.certs := by
   rw [createCertificate_eq]
   cases newCert E s e <;> rfl
 
+/- VACUITY AUDIT: no longer an obligation of the check. restates the definition of quorumIdx. Replaced by: Vacuity.C14.quorum_indices. -/
 /-- the quorum the harness instantiates: at least `k` distinct lottery indices on the table -/
 theorem C14_quorum_idx (k : Nat) (rows : List SigRow) :
     quorumIdx k rows = true ↔ k ≤ ((rows.flatMap (·.idx)).eraseDups).length := by
@@ -99,6 +101,7 @@ theorem C14_signature_verified (s : St) (e : Nat) (g : Sig) :
         g.party ∈ signersOf s.regs (o.epoch - 1) :=
   sigClass_registered_iff s e g
 
+/- VACUITY AUDIT: no longer an obligation of the check. no reachable state of the model meets its hypotheses (Vacuity.C14.gap_hypothesis_unreachable): a defensive clause about tables the model never produces. Replaced by: Vacuity.C14.run_gap (GapInv) + C14.C14_gap_blocks_idle. -/
 /-- **Epoch gap**: with no certificate of the open message's epoch or of the one before, nothing is
 inserted (no parent), and the idle tick that meets a gap between the chain and the last certificate
 goes to `Blocked` (or keeps its state on an error) instead of `Ready` -/
